@@ -141,7 +141,10 @@ def run_behaviour(ctx, env, beh, name, base, on_step=None):
             obs_state = env.project([k for k in exp_state if k not in replay.UNOBSERVABLE])
             d = replay.diff_states(exp_state, obs_state)
             if d:
-                props = sorted({replay.FIELD_PROP.get(f[0], "C04") for f in d} | ({"C01", "C02"} if op["name"] == "reload" else set()))
+                props = {replay.FIELD_PROP.get(f[0], "C04") for f in d} | ({"C01", "C02"} if op["name"] == "reload" else set())
+                if op["name"].startswith(("set.", "list.", "symx.")) and any(f[0] in ("mods", "kids", "par", "symx") for f in d):
+                    props.add(replay.op_prop(op["name"]))
+                props = sorted(props)
                 return n, {"kind": "state", "props": props, "op": hist[-1],
                            "expected": [list(x[:3]) for x in d[:8]], "observed": [[x[0], x[1], x[3]] for x in d[:8]],
                            "history": hist,
@@ -156,7 +159,7 @@ def run_behaviour(ctx, env, beh, name, base, on_step=None):
 
 
 def stage_sim(ctx, name, *, num, depth, bases=(0,), consts=None, invariants=None, on_step=None, seed=None,
-              track_obs=False):
+              track_obs=False, env_setup=None):
     """role B on a configuration too large to enumerate: TLC -simulate prints random behaviours of
     the specification, each is replayed on real objects"""
     consts = dict(consts or configs.get(name))
@@ -196,6 +199,8 @@ def stage_sim(ctx, name, *, num, depth, bases=(0,), consts=None, invariants=None
         ops = {}
         for beh in behs:
             env = universe.Env(ctx.gtirb, consts, base=base)
+            if env_setup:
+                env_setup(env)
             n, v, t = run_behaviour(ctx, env, beh, name, base, on_step)
             steps += n
             trunc += t
@@ -241,9 +246,15 @@ def judge_recorded(ctx, name, consts, rec):
              "state": r["st"], "base": r.get("base", "0"), "config": name,
              "signature": "lookup:%s/%s" % (b["f"], "point" if b["q"][1] == b["q"][0] + 1 and b["q"][2] == 1 else "range")}
         _file(ctx, v)
+    for b in rec.raised:
+        _file(ctx, {"kind": "lookup-raised", "props": [METHOD_PROP.get(b["f"], "C05")],
+                    "op": {"name": b["f"], "x": b["x"], "q": b["q"]},
+                    "expected": "an answer: every point and every positive-step range is a legal query",
+                    "observed": {"exc": b["exc"], "msg": b["msg"]}, "history": b["history"], "state": b["st"],
+                    "base": b["base"], "config": name, "signature": "lookup-raised:%s/%s" % (b["f"], b["exc"])})
     ctx.stages.append({"stage": "judge-lookups", "config": name, "states_recorded": rec.n_records,
                        "lookups_judged_by_tlc": rec.n_queries, "lookups_with_nonempty_answer": rec.nonempty,
-                       "rejected": len(bad), "by_method": rec.by_method})
+                       "rejected": len(bad), "raised_instead_of_answering": len(rec.raised), "by_method": rec.by_method})
     if rec.samples and len(ctx.samples) < 6:
         ctx.samples.append({"config": name, "lookup": rec.samples[0]})
     ctx.log("judge %s: %d states, %d lookups (%d non-empty), %d rejected" % (
@@ -251,14 +262,15 @@ def judge_recorded(ctx, name, consts, rec):
     return bad
 
 
-def stage_graph_lookups(ctx, name, *, bases=(0,), per_step=8, result=None, consts=None, p_lookup=0.6):
+def stage_graph_lookups(ctx, name, *, bases=(0,), per_step=8, result=None, consts=None, p_lookup=0.6,
+                        always_blocks=False):
     """lookups are issued after a step only with probability p_lookup, so that edits accumulate
     between lookups (the indexes are maintained lazily)"""
     import random
     from . import judge
     consts = consts or configs.get(name)
     for base in bases:
-        rec = judge.Recorder(consts, seed=ctx.seed + 17, per_step=per_step)
+        rec = judge.Recorder(consts, seed=ctx.seed + 17, per_step=per_step, always_blocks=always_blocks)
         rng = random.Random(ctx.seed + 41)
         stage_graph(ctx, name, bases=(base,), consts=consts, result=result,
                     on_step=lambda env, op, sid: rec.record(env, state_key=sid) if rng.random() < p_lookup else None)
@@ -272,7 +284,18 @@ def stage_sim_lookups(ctx, name, *, num, depth, bases=(0,), per_step=8, consts=N
     for base in bases:
         rec = judge.Recorder(consts, seed=ctx.seed + 23, per_step=per_step)
         rng = random.Random(ctx.seed + 43)
+        def lookup(env, op, rec=rec):
+            # a Lookup action of the specification: the family's methods, answered by the real objects, judged by TLC
+            qs = []
+            for f in judge.FAM_METHODS[op["fam"]]:
+                q = [0, 1, 1] if f in ("section_address", "section_size") else list(op["q"])
+                ans = rec.ask_safe(env, f, op["x"], q, False)
+                if ans is not None:
+                    qs.append({"f": f, "x": op["x"], "q": q, "ans": ans})
+            rec.write(env, qs)
+
         stage_sim(ctx, name, num=num, depth=depth, bases=(base,), consts=consts,
+                  env_setup=lambda env: setattr(env, "lookup_hook", lookup),
                   on_step=lambda env, op, r: rec.record(env) if rng.random() < p_lookup else None)
         judge_recorded(ctx, name, consts, rec)
 
